@@ -60,7 +60,7 @@ func MakeType(t *rapid.T, base string, mod *Module, label string) *Type {
 	ty := &Type{Base: base}
 	switch base {
 	case "decimal64":
-		ty.FD = rapid.SampledFrom([]int{1, 2, 3}).Draw(t, label+"-fd")
+		ty.FD = rapid.SampledFrom([]int{1, 2, 3, 3, 5, 8, 12}).Draw(t, label+"-fd")
 	case "enumeration":
 		n := rapid.IntRange(2, 4).Draw(t, label+"-nenum")
 		v := rapid.IntRange(1, 3).Draw(t, label+"-v0")
@@ -257,6 +257,10 @@ func GenValue(t *rapid.T, ty *Type, label string, easy bool) string {
 			fd = 2
 		}
 		m := rapid.Int64Range(-999999, 999999).Draw(t, label)
+		if fd > 3 && rapid.Bool().Draw(t, label+"-long") {
+			// up to 12 significant digits: exactly representable as the shortest float64 text
+			m = rapid.Int64Range(-999999999999, 999999999999).Draw(t, label+"-m")
+		}
 		den := new(big.Int).Exp(big.NewInt(10), big.NewInt(int64(fd)), nil)
 		f, _ := new(big.Rat).SetFrac(big.NewInt(m), den).Float64()
 		return CanonFloat(f)
